@@ -12,11 +12,12 @@ abbrev pktSize : Nat := Bifrost.Gen.Limits.connPktSize
 /-- The pump queues exactly the bytes the peer wrote, in order, in pieces of 1..pktSize bytes. -/
 theorem pump_preserves_stream (k : Nat) (hk : 0 < k) (cs : Reader) :
     (connPump k cs).flatten = cs.flatten := by
-  sorry
+  have _ := hk
+  exact connPump_flatten k cs
 
 theorem pump_piece_sizes (k : Nat) (hk : 0 < k) (cs : Reader) :
     ∀ p ∈ connPump k cs, 0 < p.length ∧ p.length ≤ k := by
-  sorry
+  exact connPump_sizes k hk cs
 
 /-- For arbitrary read-buffer sizes: re-inserting, after each read, the bytes that read
 discarded gives back a prefix of the written stream; a read discards bytes only if it
@@ -28,7 +29,10 @@ theorem loss_only_when_reported (k : Nat) (hk : 0 < k) (cs : Reader) (bufs : Lis
         <+: cs.flatten ∧
       (∀ i (h : i < (connReads (connPump k cs) bufs).length) (h' : i < dropped.length),
         (dropped[i] ≠ [] ↔ ((connReads (connPump k cs) bufs)[i]).2 = true)) := by
-  sorry
+  have _ := hk
+  have h := connReads_loss (connPump k cs) bufs
+  rw [connPump_flatten k cs] at h
+  exact h
 
 /-- With read buffers at least as large as the pump buffer nothing is ever discarded: the
 bytes returned are exactly the next unread bytes of the stream, and no short buffer is reported. -/
@@ -36,13 +40,24 @@ theorem reads_are_next_bytes (k : Nat) (hk : 0 < k) (cs : Reader) (bufs : List N
     (hb : ∀ b ∈ bufs, k ≤ b) :
     ((connReads (connPump k cs) bufs).map (·.1)).flatten <+: cs.flatten ∧
     (∀ r ∈ connReads (connPump k cs) bufs, r.2 = false) := by
-  sorry
+  have hq : ∀ p ∈ connPump k cs, p.length ≤ k := fun p hp => (connPump_sizes k hk cs p hp).2
+  constructor
+  · rw [connReads_big_fst k _ bufs hq hb, ← connPump_flatten k cs]
+    conv => rhs; rw [← List.take_append_drop bufs.length (connPump k cs)]
+    rw [List.flatten_append]
+    exact List.prefix_append _ _
+  · rw [connReads_big k _ bufs hq hb]
+    intro r hr
+    simp only [List.mem_map] at hr
+    obtain ⟨p, -, rfl⟩ := hr
+    rfl
 
 /-- When enough reads are made, every byte written is returned. -/
 theorem all_bytes_delivered (k : Nat) (hk : 0 < k) (cs : Reader) (bufs : List Nat)
     (hb : ∀ b ∈ bufs, k ≤ b) (hn : (connPump k cs).length ≤ bufs.length) :
     ((connReads (connPump k cs) bufs).map (·.1)).flatten = cs.flatten := by
-  sorry
+  have hq : ∀ p ∈ connPump k cs, p.length ≤ k := fun p hp => (connPump_sizes k hk cs p hp).2
+  rw [connReads_big_fst k _ bufs hq hb, List.take_of_length_le hn, connPump_flatten k cs]
 
 /-- Non-vacuity (pump buffer 4): a 5-byte chunk is split 4+1; a zero-size read loses with notice. -/
 example : connReads (connPump 4 [[1, 2, 3, 4, 5], [6]]) [10, 10, 0]
